@@ -74,6 +74,28 @@ def replay(spec):
                 problems.append("daughter volumes %s + %s from %s" % (d.py_get_volume(), e.py_get_volume(), V))
             if d.py_get_time() != 1.0 or e.py_get_time() != 1.0:
                 problems.append("daughter time")
+            if spec["splitter"] == "general" and not problems:
+                # the same random stream through the documented partition: p = 1/2 - u*noise is the daughter's volume
+                # fraction; a perfect species gets round(p*n) (one more draw decides a half); a binomial species gets
+                # the number of its n own draws below p
+                from bioscrape.random import py_uniform_rv
+                py_seed_random(seed)
+                pfrac = 0.5 - py_uniform_rv() * float(v.get("noise", 0.2))
+                want = {}
+                for n, m in zip(names, modes):
+                    if m == "perfect":
+                        dv = pfrac * counts[n]
+                        am = int(dv + 0.5)
+                        want[n] = float(am) if abs(dv - am) <= 1e-8 else float(int(dv) + (1 if py_uniform_rv() <= pfrac else 0))
+                for i_sp in sorted(idx[n] for n, m in zip(names, modes) if m == "binomial"):
+                    n = [k for k in names if idx[k] == i_sp][0]
+                    want[n] = float(sum(1 for _ in range(int(counts[n])) if py_uniform_rv() < pfrac))
+                if abs(d.py_get_volume() - V * pfrac) > 1e-12:
+                    problems.append("daughter volume %s is not (1/2 - u*noise) * V = %s" % (d.py_get_volume(), V * pfrac))
+                for n, w in want.items():
+                    if ds[idx[n]] != w:
+                        problems.append("%s species %s: daughter holding the volume fraction %.4f gets %s of %s molecules; the molecules whose own "
+                                        "draw is below that fraction are %s" % (dict(zip(names, modes))[n], n, pfrac, ds[idx[n]], counts[n], w))
             if problems:
                 break
         return {"reproduced": bool(problems), "observed": problems[:3], "expected": "conserving partition"}
